@@ -201,3 +201,49 @@ POD_FORMS = {
     "am abend": "evening", "am nachmittag": "afternoon", "this morning": "morning", "this evening": "evening",
     "this afternoon": "afternoon", "early early morning": "earlyearlymorning",
 }
+
+# ---------------------------------------------------------------------------
+# absolute dates (C05)
+# ---------------------------------------------------------------------------
+# flags: 'named' = the year is a stand-alone 4-digit token next to a month name
+# (the property excludes years that read as hh:mm with mm a multiple of 5
+# there); 'yy' = two-digit year
+DATE_NOTATIONS = {
+    "dd.mm.yyyy": (lambda y, m, d: "%02d.%02d.%04d" % (d, m, y), {}),
+    "d.m.yyyy": (lambda y, m, d: "%d.%d.%04d" % (d, m, y), {}),
+    "dd/mm/yyyy": (lambda y, m, d: "%02d/%02d/%04d" % (d, m, y), {}),
+    "d/m/yyyy": (lambda y, m, d: "%d/%d/%04d" % (d, m, y), {}),
+    "dd-mm-yyyy": (lambda y, m, d: "%02d-%02d-%04d" % (d, m, y), {}),
+    "d-m-yyyy": (lambda y, m, d: "%d-%d-%04d" % (d, m, y), {}),
+    "dd.mm.yy": (lambda y, m, d: "%02d.%02d.%02d" % (d, m, y % 100), {"yy": True}),
+    "d.m.yy": (lambda y, m, d: "%d.%d.%02d" % (d, m, y % 100), {"yy": True}),
+    "d/Mon/yyyy": (lambda y, m, d: "%d/%s/%04d" % (d, MONTH_AB[m - 1], y), {}),
+    "d-Mon-yyyy": (lambda y, m, d: "%d-%s-%04d" % (d, MONTH_AB[m - 1], y), {}),
+    "d.Mon.yyyy": (lambda y, m, d: "%d.%s.%04d" % (d, MONTH_AB[m - 1], y), {}),
+    "d Month yyyy": (lambda y, m, d: "%d %s %04d" % (d, MONTH_EN[m - 1], y), {"named": True}),
+    "d. Monat yyyy": (lambda y, m, d: "%d. %s %04d" % (d, MONTH_DE[m - 1], y), {"named": True}),
+    "Month d yyyy": (lambda y, m, d: "%s %d %04d" % (MONTH_EN[m - 1], d, y), {"named": True}),
+    "Month d, yyyy": (lambda y, m, d: "%s %d, %04d" % (MONTH_EN[m - 1], d, y), {"named": True}),
+    "dth of Month yyyy": (lambda y, m, d: "%s of %s %04d" % (ord_en(d), MONTH_EN[m - 1], y), {"named": True}),
+    "dth Month yyyy": (lambda y, m, d: "%s %s %04d" % (ord_en(d), MONTH_EN[m - 1], y), {"named": True}),
+    "Month dth yyyy": (lambda y, m, d: "%s %s %04d" % (MONTH_EN[m - 1], ord_en(d), y), {"named": True}),
+    "Month dth, yyyy": (lambda y, m, d: "%s %s, %04d" % (MONTH_EN[m - 1], ord_en(d), y), {"named": True}),
+    "d mon yyyy": (lambda y, m, d: "%d %s %04d" % (d, MONTH_AB[m - 1], y), {"named": True}),
+    "d. mon yyyy": (lambda y, m, d: "%d. %s %04d" % (d, MONTH_AB_DE[m - 1], y), {"named": True}),
+    "mon d yyyy": (lambda y, m, d: "%s %d %04d" % (MONTH_AB[m - 1], d, y), {"named": True}),
+    "mon d, yyyy": (lambda y, m, d: "%s %d, %04d" % (MONTH_AB[m - 1], d, y), {"named": True}),
+    "the dth of Month yyyy": (lambda y, m, d: "the %s of %s %04d" % (ord_en(d), MONTH_EN[m - 1], y), {"named": True}),
+    "am d. Monat yyyy": (lambda y, m, d: "am %d. %s %04d" % (d, MONTH_DE[m - 1], y), {"named": True}),
+}
+# not in the table, with the competing reading: 'dd/mm/yy' ('/' is also the
+# range joiner: 06/01/28 = 6 Jan to the 28th)
+
+
+def reads_as_military(y):
+    h, mi = divmod(y, 100)
+    return h < 24 and mi < 60 and mi % 5 == 0
+
+
+# clock notations that are unambiguous next to a date (a subset of CLOCK)
+DATE_CLOCKS = ["HH:MM", "H:MM", "HH:MM Uhr", "H:MMh", "h:MMam", "h:MM am", "h:MM a.m.", "H Uhr", "ham", "h am", "HhMM"]
+DATE_CLOCK_JOIN = [" ", " at ", " um "]
